@@ -553,8 +553,9 @@ def draw_case(d, kinds=None, *, degenerate=False, general_position=False,
     # single precision, or with a small regulariser): "any magnitude" includes
     # magnitudes next to one.  Own stream: earlier recorded cases keep their data
     aux2 = np.random.default_rng([seed, 778])
-    if np.iscomplexobj(y) and pattern == 'none' and scale_exp == 0 and not single \
-            and int(aux2.integers(0, 6)) == 0:
+    new_decisions = getattr(d, 'epoch', 2) >= 2     # see core.GENERATOR_EPOCH
+    if new_decisions and np.iscomplexobj(y) and pattern == 'none' and scale_exp == 0 \
+            and not single and int(aux2.integers(0, 6)) == 0:
         nrm = np.linalg.norm(y, axis=-1, keepdims=True)
         if np.all(nrm > 0):
             how = int(aux2.integers(0, 3))
@@ -626,7 +627,7 @@ def draw_case(d, kinds=None, *, degenerate=False, general_position=False,
             if sal_kind == 'zeros' and N >= 2:
                 idx = d.subset(N, 1, N - 1)
                 s[..., idx] = 0
-            if sal_kind != 'binary' and int(aux2.integers(0, 4)) == 0:
+            if new_decisions and sal_kind != 'binary' and int(aux2.integers(0, 4)) == 0:
                 # the unit of the saliency is arbitrary ("all non-negative
                 # saliency weights with positive sum")
                 s = s * 10.0 ** aux2.uniform(-14, 4)
@@ -638,7 +639,7 @@ def draw_case(d, kinds=None, *, degenerate=False, general_position=False,
             o['covariance_norm'] = d.choice(['eigenvalue', 'trace', False])
             o['affiliation_eps'] = d.choice([0.0, 1e-10, 1e-3])
             o['eigenvalue_floor'] = d.choice([1e-10, 1e-10, 1e-6, 1e-3, 3e-2])
-            if int(aux2.integers(0, 4)) == 0:
+            if new_decisions and int(aux2.integers(0, 4)) == 0:
                 # any clipping constant, not only the three above
                 o['affiliation_eps'] = float(10.0 ** aux2.uniform(-9, -4))
         if kind == 'cbmm':
